@@ -1432,8 +1432,12 @@ class Interp:
     def iterate(self, v, live=False) -> List:
         if isinstance(v, Lst):
             return v.items if live else list(v.items)
-        if isinstance(v, (Tup, SetVal)):
+        if isinstance(v, Tup):
             return list(v.items)
+        if isinstance(v, SetVal):
+            # a set has no order: iterate against the insertion order, so that a result which silently depends on
+            # "sets keep insertion order" (true of the model, not of Python) differs from its specification
+            return list(reversed(v.items))
         if isinstance(v, IterVal):
             return v.rest()
         if isinstance(v, DictVal):
